@@ -107,7 +107,9 @@ func GenTable(r *Rand, o GenOpts) TableSpec {
 				if numericKeys && t == len(pkIdx)-1 {
 					row[u] = fmt.Sprintf("%d", r.Intn(nrows*2+3))
 				} else if t < len(pkIdx)-1 {
-					row[u] = Pick(r, []string{"", "a", "b", "a", "ab"}) // composite keys whose first component ties
+					// composite keys whose leading components tie, or are proper prefixes of one
+					// another continued by a byte below any separator (tab, newline, 0x01)
+					row[u] = Pick(r, []string{"", "a", "b", "a", "ab", "a", "a\t", "a\tb", "a\n", "a\x01", "a\x01b", "a\x1f", "a "})
 				}
 			}
 		}
